@@ -60,6 +60,11 @@ def gen_case(rng, tier, index):
         v = gen.plain(vals)
         k = rng.choice([1, 1, 2, 3])
         case["ops"] = [ops.gen_op(rng, T, v, cfg) for _ in range(k)]
+        for op in case["ops"]:
+            # outer axes of reducers/sorts run the non-local pipeline, whose recorded heap overflows (F10) kill the
+            # uninstrumented worker without an attributable report: capped stream (every death there is re-run under ASan)
+            if op["op"] in ("reduce", "sort", "argsort") and op.get("axis") != -1 and rng.random() < 0.85:
+                op["axis"] = -1
     return case
 
 
